@@ -442,6 +442,7 @@ namespace sim
    void log_action( Ev k, std::uint32_t rule, std::uint8_t fam, const Snap& begin, std::uint32_t e, std::uint32_t chash, std::uint32_t sid, bool result );
    void soft_violation( std::uint32_t what, std::uint64_t value, const Snap& s );
    const char* g_buf_base() noexcept;
+   const char* g_buf_end() noexcept;
 
    template< typename T, typename = void >
    inline constexpr bool has_buffer_occupied = false;
@@ -457,7 +458,12 @@ namespace sim
       const char* hi;
       if constexpr( has_buffer_occupied< typename AI::input_t > ) {
          lo = g_buf_base();
-         hi = ai.input().current() + ai.input().buffer_occupied();
+         if constexpr( input_kind< typename AI::input_t > == 2 ) {
+            hi = g_buf_end();  // simulated stream: the harness's own account of the delivered, undiscarded data
+         }
+         else {
+            hi = ai.input().current() + ai.input().buffer_occupied();  // stock stream inputs of the I/O jobs
+         }
       }
       else {
          lo = ai.input().begin();
@@ -763,7 +769,7 @@ namespace sim
 
       [[nodiscard]] char peek_char( const std::size_t offset = 0 ) const noexcept
       {
-         if( offset >= this->buffer_occupied() ) {
+         if( offset >= available() ) {
             soft_violation( 1, offset, snap( *this ) );
             return 0;
          }
@@ -790,14 +796,16 @@ namespace sim
 
       void discard() noexcept
       {
+         // the harness keeps its own account of which buffer bytes are delivered and not yet discarded data
+         // ( [ current, g_buf.end ) ); it does not take the input's word for it
          const char* old_cur = this->current();
-         const std::size_t occ = this->buffer_occupied();
+         const std::size_t occ = available();
          const char* old_end = old_cur + occ;
          base_t::discard();
          const bool moved = ( this->current() != old_cur );
          if( moved ) {
             g_buf.shifted += static_cast< std::size_t >( old_cur - this->current() );
-            const char* new_end = this->current() + this->buffer_occupied();
+            const char* new_end = this->current() + occ;  // the unconsumed bytes, moved to the front
             if( new_end < old_end ) {
                SIM_POISON( new_end, static_cast< std::size_t >( old_end - new_end ) );
             }
@@ -812,9 +820,15 @@ namespace sim
          log_event( Ev::REQUIRE, 0, 0, 0, 0, snap( *this ), 0, amount );
       }
 
+      [[nodiscard]] std::size_t available() const noexcept
+      {
+         const char* c = this->current();
+         return ( g_buf.end != nullptr && g_buf.end >= c ) ? static_cast< std::size_t >( g_buf.end - c ) : 0;
+      }
+
       std::size_t clamp( std::size_t n, std::uint32_t what ) const noexcept
       {
-         const std::size_t sz = this->buffer_occupied();
+         const std::size_t sz = available();
          if( n > sz ) {
             soft_violation( what, n, snap( *this ) );
             return sz;
